@@ -222,6 +222,9 @@ pub mod quick {
     g!(two_gt_le, 4, two_filter_body(Op::Gt, Op::Le, false););
     g!(two_lt_le, 4, two_filter_body(Op::Lt, Op::Le, true););
     g!(two_ge_gt, 4, two_filter_body(Op::Ge, Op::Gt, true););
+    g!(two_ge_ne, 4, two_filter_body(Op::Ge, Op::Ne, true););
+    g!(two_ne_gt, 4, two_filter_body(Op::Ne, Op::Gt, false););
+    g!(two_eq_ge, 4, two_filter_body(Op::Eq, Op::Ge, true););
     g!(collect_0, 5, collect_body(0););
 }
 
